@@ -18,16 +18,16 @@ var Leaves = []reflect.Type{
 	T[int8](), T[int16](), T[int32](), T[int64](), T[uint](), T[uint8](), T[uint16](), T[uint32](), T[uint64](), T[uintptr](), T[float32](),
 	T[NamedBytes](), T[NamedString](), T[NamedInt](), T[json.Number](), T[json.RawMessage](), T[time.Time](),
 	T[VMStruct](), T[PMStruct](), T[VTStruct](), T[PTStruct](), T[VMString](), T[PTString](), T[VTInt](), T[PMInt](), T[VMSlice](), T[VTSlice](), T[VMMap](), T[ErrM](), T[ErrT](), T[Both](),
-	T[Iface](), T[Base](), T[struct{}](),
+	T[Iface](), T[Base](), T[struct{}](), T[VTPMStruct](), T[VTString](), T[RecPM](), T[NamedAny](),
 }
 
 // Statics are the hand-written struct types (embedding, tags, recursion).
 var Statics = []reflect.Type{
 	T[EmbedVal](), T[EmbedPtr](), T[EmbedUnexpVal](), T[EmbedUnexpPtr](), T[EmbedConflict](), T[EmbedAmbiguous](), T[EmbedTaggedWins](), T[EmbedDeep](),
-	T[EmbedMarshaler](), T[EmbedTextMarshalerPtr](), T[EmbedNonStruct](), T[EmbedPtrNonStruct](), T[EmbedIface](), T[EmbedTwoPtr](), T[EmbedTagDepths](), T[DupTagDirect](), T[DupTagEmbedded](), T[NonASCIIKeys](), T[Tags](), T[CaseFields](), T[Recursive](), T[Deep](),
+	T[EmbedMarshaler](), T[EmbedTextMarshalerPtr](), T[EmbedNonStruct](), T[EmbedPtrNonStruct](), T[EmbedIface](), T[EmbedTwoPtr](), T[EmbedTagDepths](), T[DupTagDirect](), T[DupTagEmbedded](), T[NonASCIIKeys](), T[AddrMapThenSlice](), T[AddrSliceThenMap](), T[EmbedUnexpNonStructTagged](), T[MutRoot](), T[MutA](), T[Tags](), T[CaseFields](), T[Recursive](), T[Deep](),
 }
 
-var mapKeys = []reflect.Type{T[string](), T[NamedString](), T[int](), T[int8](), T[uint64](), T[KeyT](), T[KeyPT](), T[bool](), T[float64](), T[VTInt]()}
+var mapKeys = []reflect.Type{T[string](), T[NamedString](), T[int](), T[int8](), T[uint64](), T[KeyT](), T[KeyPT](), T[bool](), T[float64](), T[VTInt](), T[VTString](), T[KeyMTOnly]()}
 
 var fieldTags = []string{"", `json:"x"`, `json:"-"`, `json:"-,"`, `json:",omitempty"`, `json:",string"`, `json:"y,omitempty,string"`, `json:"bad name"`, `json:"<a>&b"`, `json:"x,omitempty"`}
 
@@ -112,6 +112,10 @@ func Domain(t reflect.Type, depth int) []reflect.Value {
 	}
 	zero := reflect.Zero(t)
 	switch t {
+	case T[RecPM]():
+		// self-referential: hand-written values
+		add(RecPM{RecPM{}}, RecPM(nil), RecPM{}, RecPM{nil, RecPM{RecPM{}}})
+		return out
 	case T[json.Number]():
 		add(json.Number("12"), json.Number(""), json.Number("-1.5e3"), json.Number("01"), json.Number("1 "), json.Number("0x1"), json.Number("abc"), json.Number("1e400"))
 		return out
@@ -119,7 +123,7 @@ func Domain(t reflect.Type, depth int) []reflect.Value {
 		add(json.RawMessage(`{"a":1}`), json.RawMessage(nil), json.RawMessage(` [ 1 , "<x>" ] `), json.RawMessage(`{"a":}`), json.RawMessage(``), json.RawMessage(`" "`), json.RawMessage(`1 2`), json.RawMessage("null"))
 		return out
 	case T[time.Time]():
-		add(time.Date(2021, 3, 25, 21, 36, 12, 5000, time.UTC), time.Time{}, time.Date(-1, 1, 1, 0, 0, 0, 0, time.UTC), time.Date(10000, 1, 1, 0, 0, 0, 0, time.UTC), time.Date(2000, 2, 29, 1, 2, 3, 999999999, time.FixedZone("x", 3600*5+1800)))
+		add(time.Date(2021, 3, 25, 21, 36, 12, 5000, time.UTC), time.Time{}, time.Date(-1, 1, 1, 0, 0, 0, 0, time.UTC), time.Date(10000, 1, 1, 0, 0, 0, 0, time.UTC), time.Date(2000, 2, 29, 1, 2, 3, 999999999, time.FixedZone("x", 3600*5+1800)), time.Date(2020, 1, 1, 0, 0, 0, 0, time.FixedZone("", 24*3600)), time.Date(2020, 1, 1, 0, 0, 0, 0, time.FixedZone("", -24*3600)), time.Date(2020, 1, 1, 0, 0, 0, 0, time.FixedZone("", 23*3600+59*60+59)))
 		return out
 	case T[time.Duration]():
 		add(time.Duration(1500)*time.Millisecond, time.Duration(0), time.Duration(-1), time.Duration(math.MaxInt64))
@@ -134,6 +138,16 @@ func Domain(t reflect.Type, depth int) []reflect.Value {
 				e.Set(reflect.ValueOf(v))
 				out = append(out, e)
 			}
+		}
+		return out
+	case T[NamedAny]():
+		y := 6
+		for _, v := range []any{5, nil, "s", (*int)(nil), &y, map[string]any{"k": 1}, []any{1}, Base{ID: 2}, &Base{ID: 3}} {
+			e := reflect.New(t).Elem()
+			if v != nil {
+				e.Set(reflect.ValueOf(v))
+			}
+			out = append(out, e)
 		}
 		return out
 	case T[Iface]():
